@@ -3,6 +3,7 @@ import Abmarl.Props.Examples
 import Abmarl.Props.Corridor
 import Abmarl.Props.MultiGrid
 import Abmarl.Props.Reach
+import Abmarl.Props.Pacman
 #print axioms Abmarl.C01_managers_honour_done_protocol
 #print axioms Abmarl.C01_stub
 #print axioms Abmarl.specLoop_at
@@ -36,3 +37,6 @@ import Abmarl.Props.Reach
 #print axioms Abmarl.C01_ReachTheTarget
 #print axioms Abmarl.RT.rt_lawful
 #print axioms Abmarl.RT.rt_WF
+#print axioms Abmarl.C01_Pacman
+#print axioms Abmarl.PM.pm_lawful
+#print axioms Abmarl.PM.pm_WF
